@@ -129,15 +129,25 @@ func HarnessReaderWriterFile() {
 func HarnessStoreFailure() {
 	var c cacheUnderTest
 	backend := "mem"
+	// the limit is far away, or so near that the body may not fit into what is left of it
+	limit := int64(1 << 30)
+	tight := symChoice(2) == 1
+	if tight {
+		limit = 4
+	}
 	if symChoice(2) == 1 {
 		backend = "file"
-		c = newFile(2, 1<<30)
+		c = newFile(2, limit)
 		vFSFaults(1)
 	} else {
-		c = newMem(2, 1<<30)
+		c = newMem(2, limit)
 	}
 	vClockFreeze(true)
 	now := time.Now()
+	if tight {
+		c.Cache(vKeys[1], &symReader{data: []byte{7, 7}, failAt: -1}, now.Add(time.Hour), vmeta{Ver: 7})
+		vReach("nearly-full")
+	}
 	body := symBytes(symRange(0, vParam("body", 3)))
 	fail := -1
 	if symChoice(2) == 1 {
